@@ -232,6 +232,10 @@ def gen_handlers():
                                       lean_list((lean_str(t) for t in reads(fn)), 6)))
     arows.append("(%s, %s, %s)" % (lean_str("vinegar.load"), lean_list((lean_str(t) for t in touches(vinegar.load)), 6),
                                   lean_list((lean_str(t) for t in reads(vinegar.load)), 6)))
+    L += ["", "/-- what `netref.class_factory` calls and which names it reads (AST): name resolution is `sys.modules.get` +",
+          "`getattr` only - nothing that imports -/",
+          "def classFactoryCalls : List String := " + lean_list((lean_str(t) for t in touches(netref.class_factory)), 6),
+          "def classFactoryReads : List String := " + lean_list((lean_str(t) for t in reads(netref.class_factory)), 6)]
     L += ["", "/-- (function, touches, names read) of the dispatch / boxing / policy / loader code (AST) -/",
           "def anchorFacts : List (String × List String × List String) := " + lean_list(arows, 1)]
     # ---- configuration
